@@ -48,6 +48,28 @@ Proof.
     repeat (apply andb_true_intro; split); auto. apply Nat.leb_le. unfold L_BRACK. lia.
 Qed.
 
+Lemma rstop_le e : rstop e <= L_CLOSED.
+Proof.
+  induction e; cbn [rstop]; unfold L_CLOSED, L_NOT, L_UMINUS, L_BIL in *; try lia.
+Qed.
+
+Lemma bclosed_wrap_true e : bclosed e = true \/ is_open e = true -> bclosed (wrap true e) = true.
+Proof.
+  intros [H|H]; unfold wrap; cbn [andb]; destruct (is_open e) eqn:E; auto. discriminate.
+Qed.
+
+Lemma safe_wrap w e : safe 1 false e = true -> safe 1 false (wrap w e) = true.
+Proof. intro H. unfold wrap. destruct (w && is_open e); auto. Qed.
+
+Lemma wrap_keeps w e m : safe m false e = true -> safe 1 false e = true ->
+  safe m false (wrap w e) = true /\ rstop e <= rstop (wrap w e) /\ lvl e <= lvl (wrap w e).
+Proof.
+  intros Hm H1. unfold wrap. destruct (w && is_open e).
+  - cbn [safe rstop lvl]. pose proof (rstop_le e). repeat split; auto.
+    clear. induction e; cbn [lvl]; unfold L_CLOSED, L_IS, L_BIL, L_BRACK in *; lia.
+  - repeat split; auto.
+Qed.
+
 Section WithCfg.
 Variable c : cfg.
 Hypothesis Hok : cfg_ok c = true.
@@ -60,19 +82,65 @@ Proof.
   destruct (ok_un c Hok) as [Eneg Enot].
   induction t; cbn [closed in_class build]; intros Hc Hi; try discriminate; try reflexivity; bsplit.
   - destruct (ok_fwd c Hok o) as (_ & _ & _ & F4). apply mkbin_paren. apply F4. assumption.
-  - destruct (ok_rev c Hok o H) as (_ & _ & _ & F4). apply mkbin_paren. apply F4. assumption.
+  - destruct (ok_rev c Hok o ltac:(assumption)) as (_ & _ & _ & F4). apply mkbin_paren. apply F4. assumption.
   - rewrite Eneg. reflexivity.
   - auto.
   - destruct t; try discriminate. reflexivity.
   - destruct t1; try discriminate. reflexivity.
 Qed.
 
-(** levels of what may stand under & and | *)
-Lemma mkbin_levels bf x y : bf_self_left bf = true -> bclosed x = true -> bclosed y = true ->
+Lemma mkbin_kind bf x y : bf_paren bf = true \/ is_open (SBin (bf_cls bf) x y) = true ->
+  bclosed (mkbin bf x y) = true \/ is_open (mkbin bf x y) = true.
+Proof.
+  intros [H|H]; [left; apply mkbin_paren; exact H|].
+  unfold mkbin. destruct (bf_paren bf); [left; reflexivity|]. right.
+  destruct (bf_self_left bf); cbn [is_open] in *; exact H.
+Qed.
+
+(** what the builder returns is either closed on both sides or one of the classes _operand parenthesises *)
+Lemma built_kind t : in_class c t = true -> bclosed (build c t) = true \/ is_open (build c t) = true.
+Proof.
+  destruct (ok_un c Hok) as [Eneg Enot]. destruct (ok_names c Hok) as (EL & EIL & _).
+  destruct (ok_nse c Hok) as (N1 & N2 & N3).
+  induction t; cbn [in_class build]; intro Hi; bsplit; try (left; reflexivity); try (right; reflexivity).
+  - destruct (ok_fwd c Hok o) as (F1 & F2 & F3 & F4). apply mkbin_kind. rewrite F1.
+    destruct (is_arith o || is_logic o) eqn:E; [left; apply F4; reflexivity|].
+    right. destruct o; try discriminate; reflexivity.
+  - destruct (ok_rev c Hok o ltac:(assumption)) as (F1 & F2 & F3 & F4). left. apply mkbin_paren. apply F4.
+    assumption.
+  - apply mkbin_kind. rewrite N1. right. reflexivity.
+  - left. rewrite Eneg. reflexivity.
+  - right. rewrite Enot. reflexivity.
+  - right. rewrite EL. reflexivity.
+  - right. rewrite EIL. reflexivity.
+  - auto.
+  - left. destruct t; try discriminate. reflexivity.
+  - left. destruct t1; try discriminate. reflexivity.
+Qed.
+
+Lemma operand_bclosed w t : w || closed t = true -> in_class c t = true -> bclosed (wrap w (build c t)) = true.
+Proof.
+  intros H Hi. destruct w.
+  - apply bclosed_wrap_true. apply built_kind. exact Hi.
+  - cbn [orb] in H. unfold wrap. cbn [andb]. apply closed_bclosed; assumption.
+Qed.
+
+(** an operand that went through _operand, or is closed anyway: safe in every operand context *)
+Lemma operand_ok w t : w || closed t = true -> in_class c t = true -> safe 1 false (build c t) = true ->
+  forall m bm, m <= 12 ->
+  safe m bm (wrap w (build c t)) = true /\ 12 <= rstop (wrap w (build c t)) /\ 13 <= lvl (wrap w (build c t)).
+Proof.
+  intros H Hi Hs m bm L. pose proof (operand_bclosed w t H Hi) as B.
+  destruct (bclosed_levels _ B). repeat split; auto.
+  apply bclosed_safe; auto. apply safe_wrap. exact Hs.
+Qed.
+
+Lemma mkbin_levels bf x y : bf_self_left bf = true ->
+  bclosed (wrap (bf_opwrap bf) x) = true -> bclosed (wrap (bf_opwrap bf) y) = true ->
   Nat.min (blvl (bf_cls bf)) 13 <= lvl (mkbin bf x y) /\ Nat.min (rs (bf_cls bf)) 12 <= rstop (mkbin bf x y).
 Proof.
   intros Hl Hx Hy. unfold mkbin. rewrite Hl.
-  destruct (bclosed_levels x Hx), (bclosed_levels y Hy).
+  destruct (bclosed_levels _ Hx), (bclosed_levels _ Hy).
   destruct (bf_paren bf); cbn [lvl rstop]; unfold L_CLOSED.
   - destruct (bf_cls bf); unfold rs; simpl; split; lia.
   - split; lia.
@@ -91,65 +159,59 @@ Proof.
       unfold mkbin. rewrite Hp. cbn [lvl rstop]. unfold L_CLOSED. split; lia.
     + bsplit.
       destruct (mkbin_levels (c_fwd c o) (build c t1) (build c t2) F2) as [A B];
-        try (apply closed_bclosed; assumption).
+        try (apply operand_bclosed; assumption).
       rewrite F1 in A, B. destruct o; try discriminate; unfold rs in B; simpl in A, B; split; lia.
   - (* UNse *)
     rewrite N3, operand_eq.
     destruct (mkbin_levels (c_nse c) (build c t1) (build c t2) N2) as [A B];
-      try (apply closed_bclosed; assumption).
+      try (apply operand_bclosed; assumption).
     rewrite N1 in A, B. unfold rs in B; simpl in A, B; split; lia.
   - (* UNot *) rewrite Enot. cbn [mkun uf_paren uf_not lvl rstop]. unfold L_CLOSED, L_NOT. split; lia.
-  - (* UIsNull *) destruct (bclosed_levels _ (closed_bclosed t ltac:(assumption) ltac:(assumption))).
+  - (* UIsNull *) destruct (bclosed_levels _ (operand_bclosed _ t ltac:(eassumption) ltac:(assumption))).
     cbn [lvl rstop]. unfold L_CLOSED, L_IS. split; lia.
   - (* UIsNotNull *) destruct (c_isnotnull_paren c); cbn [lvl rstop]; unfold L_CLOSED, L_NOT; split; lia.
-  - (* UIsin *) destruct (bclosed_levels _ (closed_bclosed t ltac:(assumption) ltac:(assumption))).
+  - (* UIsin *) destruct (bclosed_levels _ (operand_bclosed _ t ltac:(eassumption) ltac:(assumption))).
     cbn [lvl rstop]. unfold L_CLOSED, L_BIL. split; lia.
-  - (* UBetween *) destruct (bclosed_levels _ (closed_bclosed t1 ltac:(assumption) ltac:(assumption))).
-    destruct (bclosed_levels _ (closed_bclosed t3 ltac:(assumption) ltac:(assumption))).
+  - (* UBetween *)
+    assert (B1 : bclosed (wrap (c_pred_opwrap c) (build c t1)) = true) by (apply operand_bclosed; assumption).
+    assert (B3 : bclosed (wrap (c_pred_opwrap c) (build c t3)) = true) by (apply operand_bclosed; assumption).
+    destruct (bclosed_levels _ B1), (bclosed_levels _ B3).
     cbn [lvl rstop]. unfold L_BIL. split; lia.
-  - (* ULike *) destruct (bclosed_levels _ (closed_bclosed t ltac:(assumption) ltac:(assumption))). rewrite EL.
+  - (* ULike *) destruct (bclosed_levels _ (operand_bclosed _ t ltac:(eassumption) ltac:(assumption))). rewrite EL.
     cbn [lvl rstop]. unfold rs, L_CLOSED; cbn [blvl nonassoc]. split; lia.
-  - (* UILike *) destruct (bclosed_levels _ (closed_bclosed t ltac:(assumption) ltac:(assumption))). rewrite EIL.
+  - (* UILike *) destruct (bclosed_levels _ (operand_bclosed _ t ltac:(eassumption) ltac:(assumption))). rewrite EIL.
     cbn [lvl rstop]. unfold rs, L_CLOSED; cbn [blvl nonassoc]. split; lia.
   - (* UAlias *) auto.
 Qed.
 
 Lemma safe_mkbin bf x y : bf_self_left bf = true ->
   safe 1 false (mkbin bf x y) =
-  (1 <=? blvl (bf_cls bf)) && allowed false (bf_cls bf) && safe 1 false x && (blvl (bf_cls bf) <? rstop x)
-  && safe (rm (bf_cls bf)) false y.
+  (1 <=? blvl (bf_cls bf)) && allowed false (bf_cls bf) && safe 1 false (wrap (bf_opwrap bf) x)
+  && (blvl (bf_cls bf) <? rstop (wrap (bf_opwrap bf) x)) && safe (rm (bf_cls bf)) false (wrap (bf_opwrap bf) y).
 Proof. intro H. unfold mkbin. rewrite H. destruct (bf_paren bf); reflexivity. Qed.
 
 Lemma safe_mkbin_rev bf x y : bf_self_left bf = false ->
   safe 1 false (mkbin bf x y) =
-  (1 <=? blvl (bf_cls bf)) && allowed false (bf_cls bf) && safe 1 false y && (blvl (bf_cls bf) <? rstop y)
-  && safe (rm (bf_cls bf)) false x.
+  (1 <=? blvl (bf_cls bf)) && allowed false (bf_cls bf) && safe 1 false (wrap (bf_opwrap bf) y)
+  && (blvl (bf_cls bf) <? rstop (wrap (bf_opwrap bf) y)) && safe (rm (bf_cls bf)) false (wrap (bf_opwrap bf) x).
 Proof. intro H. unfold mkbin. rewrite H. destruct (bf_paren bf); reflexivity. Qed.
 
 Lemma blvl_pos o : 1 <= blvl o /\ blvl o <= 9.
 Proof. destruct o; simpl; lia. Qed.
 
-(** an operand that is closed: safe in every operand context, nothing binds into it from the right *)
-Lemma closed_operand t : closed t = true -> in_class c t = true -> safe 1 false (build c t) = true ->
-  forall m bm, m <= 12 -> safe m bm (build c t) = true /\ 12 <= rstop (build c t).
-Proof.
-  intros Hc Hi Hs m bm L. pose proof (closed_bclosed t Hc Hi) as B.
-  split; [apply bclosed_safe; assumption | apply (bclosed_levels _ B)].
-Qed.
-
-Lemma andor_operand t : andor_ok t = true -> in_class c t = true -> safe 1 false (build c t) = true ->
-  forall m, m <= 3 -> safe m false (build c t) = true /\ 3 <= rstop (build c t).
+(** an operand of & or |: the wrapped form is at least as safe as the bare one *)
+Lemma andor_operand w t : andor_ok t = true -> in_class c t = true -> safe 1 false (build c t) = true ->
+  forall m, m <= 3 -> safe m false (wrap w (build c t)) = true /\ 3 <= rstop (wrap w (build c t)).
 Proof.
   intros Ha Hi Hs m L. destruct (andor_levels t Ha Hi) as [A B].
-  split; [eapply safe_raise; [eassumption | lia] | assumption].
+  assert (Sm : safe m false (build c t) = true) by (eapply safe_raise; [eassumption | lia]).
+  destruct (wrap_keeps w (build c t) m Sm Hs) as (S' & R' & _). split; [exact S' | lia].
 Qed.
 
 Ltac solve_and := repeat (apply andb_true_intro; split); auto.
-
 Ltac ih IH name := pose proof (IH ltac:(assumption)) as name.
-Ltac cl_op t S m bm pat :=
-  destruct (closed_operand t ltac:(assumption) ltac:(assumption) S m bm) as pat;
-  [unfold rm, L_NOT, L_BIL, L_IS; try (destruct (blvl_pos (uop_bop ltac:(assumption)))); simpl; lia|].
+Ltac fin o := solve_and; try (apply Nat.leb_le; lia); try (destruct o; try discriminate; reflexivity);
+              try (apply Nat.ltb_lt; destruct o; try discriminate; simpl in *; lia).
 
 Lemma build_safe_mut :
   (forall t, in_class c t = true -> safe 1 false (build c t) = true) /\
@@ -163,59 +225,59 @@ Proof.
     rewrite F1. destruct (blvl_pos (uop_bop o)) as [P1 P2].
     ih H Sa. ih H0 Sb.
     destruct (is_logic o) eqn:El; bsplit.
-    + destruct (andor_operand a ltac:(assumption) ltac:(assumption) Sa 1) as [_ Ra]; [lia|].
-      destruct (andor_operand b ltac:(assumption) ltac:(assumption) Sb (rm (uop_bop o))) as [Sb' _];
+    + destruct (andor_operand (bf_opwrap (c_fwd c o)) a ltac:(assumption) ltac:(assumption) Sa 1) as [Sa' Ra]; [lia|].
+      destruct (andor_operand (bf_opwrap (c_fwd c o)) b ltac:(assumption) ltac:(assumption) Sb (rm (uop_bop o))) as [Sb' _];
         [destruct o; try discriminate; unfold rm; simpl; lia|].
-      solve_and; try (apply Nat.leb_le; lia); try (destruct o; try discriminate; reflexivity);
-        try (apply Nat.ltb_lt; destruct o; try discriminate; simpl in *; lia).
-    + destruct (closed_operand a ltac:(assumption) ltac:(assumption) Sa 1 false) as [_ Ra]; [lia|].
-      destruct (closed_operand b ltac:(assumption) ltac:(assumption) Sb (rm (uop_bop o)) false) as [Sb' _];
+      fin o.
+    + destruct (operand_ok _ a ltac:(eassumption) ltac:(assumption) Sa 1 false) as (Sa' & Ra & _); [lia|].
+      destruct (operand_ok _ b ltac:(eassumption) ltac:(assumption) Sb (rm (uop_bop o)) false) as (Sb' & _ & _);
         [unfold rm; lia|].
-      solve_and; try (apply Nat.leb_le; lia); try (destruct o; try discriminate; reflexivity);
-        try (apply Nat.ltb_lt; destruct o; try discriminate; simpl in *; lia).
+      fin o.
   - (* URBin *)
     destruct (ok_rev c Hok o ltac:(assumption)) as (F1 & F2 & F3 & F4).
     rewrite F3, pylit_true, safe_mkbin_rev by assumption.
     rewrite F1. destruct (blvl_pos (uop_bop o)) as [P1 P2]. ih H Sb.
+    assert (Wl : forall w0 v0, wrap w0 (SLit v0) = SLit v0) by (intros w0 v0; unfold wrap; rewrite andb_false_r; reflexivity).
+    rewrite Wl. cbn [safe rstop].
     destruct (is_logic o) eqn:El.
-    + destruct (andor_operand b ltac:(assumption) ltac:(assumption) Sb (rm (uop_bop o))) as [Sb' _];
+    + destruct (andor_operand (bf_opwrap (c_rev c o)) b ltac:(assumption) ltac:(assumption) Sb (rm (uop_bop o))) as [Sb' _];
         [destruct o; try discriminate; unfold rm; simpl; lia|].
-      solve_and; try (apply Nat.leb_le; lia); try (destruct o; try discriminate; reflexivity);
-        try (apply Nat.ltb_lt; destruct o; try discriminate; simpl in *; lia).
-    + destruct (closed_operand b ltac:(assumption) ltac:(assumption) Sb (rm (uop_bop o)) false) as [Sb' _];
-        [unfold rm; lia|].
-      solve_and; try (apply Nat.leb_le; lia); try (destruct o; try discriminate; reflexivity);
-        try (apply Nat.ltb_lt; destruct o; try discriminate; simpl in *; lia).
+      unfold L_CLOSED. fin o.
+    + destruct (operand_ok (bf_opwrap (c_rev c o)) b) with (m := rm (uop_bop o)) (bm := false) as (Sb' & _ & _);
+        try assumption; [rewrite orb_true_iff; right; assumption | unfold rm; lia|].
+      unfold L_CLOSED. fin o.
   - (* UNse *)
     rewrite N3, operand_eq, safe_mkbin by assumption. rewrite N1.
     ih H Sa. ih H0 Sb.
-    destruct (closed_operand a ltac:(assumption) ltac:(assumption) Sa 1 false) as [_ Ra]; [lia|].
-    destruct (closed_operand b ltac:(assumption) ltac:(assumption) Sb (rm Nse) false) as [Sb' _];
+    destruct (operand_ok _ a ltac:(eassumption) ltac:(assumption) Sa 1 false) as (Sa' & Ra & _); [lia|].
+    destruct (operand_ok _ b ltac:(eassumption) ltac:(assumption) Sb (rm Nse) false) as (Sb' & _ & _);
       [unfold rm; simpl; lia|].
     solve_and. apply Nat.ltb_lt. simpl. lia.
   - (* UNeg *) rewrite Eneg. cbn [mkun uf_paren uf_not safe]. auto.
   - (* UNot *) rewrite Enot. cbn [mkun uf_paren uf_not safe negb andb]. auto.
   - (* UIsNull *) ih H Sa.
-    destruct (closed_operand a ltac:(assumption) ltac:(assumption) Sa 1 false) as [_ Ra]; [lia|].
+    destruct (operand_ok _ a ltac:(eassumption) ltac:(assumption) Sa 1 false) as (Sa' & Ra & _); [lia|].
     cbn [safe]. solve_and. apply Nat.ltb_lt. unfold L_IS. lia.
   - (* UIsNotNull *) ih H Sa.
-    destruct (closed_operand a ltac:(assumption) ltac:(assumption) Sa L_NOT false) as [Sa' Ra]; [unfold L_NOT; lia|].
+    destruct (operand_ok _ a ltac:(eassumption) ltac:(assumption) Sa L_NOT false) as (Sa' & Ra & _); [unfold L_NOT; lia|].
+    destruct (operand_ok _ a ltac:(eassumption) ltac:(assumption) Sa 1 false) as (Sa1 & _ & _); [lia|].
     destruct (c_isnotnull_paren c); cbn [safe negb andb].
     + solve_and. apply Nat.ltb_lt. unfold L_IS. lia.
     + solve_and. apply Nat.ltb_lt. unfold L_IS. lia.
   - (* UIsin *) ih H Sa.
-    destruct (closed_operand a ltac:(assumption) ltac:(assumption) Sa 1 false) as [_ Ra]; [lia|].
+    destruct (operand_ok _ a ltac:(eassumption) ltac:(assumption) Sa 1 false) as (Sa' & Ra & _); [lia|].
     cbn [safe]. solve_and. apply Nat.ltb_lt. unfold L_BIL. lia.
   - (* UBetween *) ih H Sa. ih H0 Slo. ih H1 Shi.
-    destruct (closed_operand a ltac:(assumption) ltac:(assumption) Sa 1 false) as [_ Ra]; [lia|].
-    destruct (closed_operand lo ltac:(assumption) ltac:(assumption) Slo 1 true) as [Slo' _]; [lia|].
-    destruct (closed_operand hi ltac:(assumption) ltac:(assumption) Shi (S L_BIL) false) as [Shi' _]; [unfold L_BIL; lia|].
+    destruct (operand_ok (c_pred_opwrap c) a) with (m := 1) (bm := false) as (Sa' & Ra & _); try assumption; [lia|].
+    destruct (operand_ok (c_pred_opwrap c) lo) with (m := 1) (bm := true) as (Slo' & _ & _); try assumption; [lia|].
+    destruct (operand_ok (c_pred_opwrap c) hi) with (m := S L_BIL) (bm := false) as (Shi' & _ & _); try assumption;
+      [unfold L_BIL; lia|].
     cbn [safe]. solve_and. apply Nat.ltb_lt. unfold L_BIL. lia.
   - (* ULike *) ih H Sa.
-    destruct (closed_operand a ltac:(assumption) ltac:(assumption) Sa 1 false) as [_ Ra]; [lia|].
+    destruct (operand_ok _ a ltac:(eassumption) ltac:(assumption) Sa 1 false) as (Sa' & Ra & _); [lia|].
     rewrite EL. cbn [safe]. solve_and. apply Nat.ltb_lt. simpl. lia.
   - (* UILike *) ih H Sa.
-    destruct (closed_operand a ltac:(assumption) ltac:(assumption) Sa 1 false) as [_ Ra]; [lia|].
+    destruct (operand_ok _ a ltac:(eassumption) ltac:(assumption) Sa 1 false) as (Sa' & Ra & _); [lia|].
     rewrite EIL. cbn [safe]. solve_and. apply Nat.ltb_lt. simpl. lia.
   - (* URlike *) cbn [safe]. solve_and.
   - (* UStartsWith *) cbn [safe]. solve_and.
@@ -228,7 +290,8 @@ Proof.
   - (* UGetItemCol *) destruct a; try discriminate.
     match goal with E : (_ =? _)%Z = true |- _ => apply Z.eqb_eq in E; rewrite E end.
     unfold offset_key. cbn [Z.eqb Z.ltb Z.compare Pos.compare build safe rstop andb]. ih H0 Si.
-    destruct (closed_operand c0 ltac:(assumption) ltac:(assumption) Si 1 false) as [_ Ri]; [lia|].
+    destruct (operand_ok false c0) with (m := 1) (bm := false) as (_ & Ri & _); try assumption; [lia|].
+    unfold wrap in Ri. cbn [andb] in Ri.
     solve_and. apply Nat.ltb_lt. simpl. lia.
   - (* UBElse *) cbn [safeb]. auto.
   - (* UBWhen *) cbn [safeb]. solve_and.
